@@ -18,7 +18,7 @@ EdgeRec ==
   LET rec == last'.rec
       e   == Effects(role, phase, rec) IN
   [ role  |-> role, phase |-> phase, pre |-> hist,
-    act   |-> [ct |-> rec.ct, cls |-> rec.cls, src |-> rec.src, pos |-> rec.pos, how |-> rec.how,
+    act   |-> [ct |-> rec.ct, cls |-> rec.cls, src |-> rec.src, pos |-> rec.pos, how |-> rec.how, rep |-> rec.rep,
                bits |-> IF rec.cls = "e1-flip" THEN FlipBits[rec.ct] ELSE 0],
     region |-> Region(rec), authentic |-> Authentic(rec), keys |-> KeysExist(phase),
     exp   |-> [ delivered |-> [allowed |-> e.delta, rule |-> e.drule],
